@@ -464,6 +464,13 @@ func (m *Manager) TerminateSession(ctx context.Context, sessionID string, reason
 		m.mu.Unlock()
 		return fmt.Errorf("session not found: %s", sessionID)
 	}
+	if session.State == StateTerminating {
+		// Another caller is already terminating this session and will release
+		// its addresses and emit the terminate event: doing it again would
+		// release an address that may already belong to somebody else
+		m.mu.Unlock()
+		return fmt.Errorf("session already terminating: %s", sessionID)
+	}
 
 	oldState := session.State
 	session.State = StateTerminating
